@@ -233,6 +233,19 @@ def k_general(run, case):
         arr = dict(arr, q=q, R=np.array([rm.rot_from_quat_wxyz(qk) for qk in q]))
         sub = "in-plane positions, attitudes about the %s axis" % "xyz"[ax]
         mode = "xyzq" if rng.random() < .7 else mode
+    if "q" not in arr and rng.random() < .08:
+        # position fixes without orientation: all-zero quaternion rows (evo reads them as "no rotation")
+        mode = "xyzq"
+        q = gen.quats_of(arr["R"])
+        R = np.array(arr["R"], copy=True)
+        for k in range(n):
+            if rng.random() < .3:
+                q[k] = 0.0
+                R[k] = np.eye(3)
+                planar[k] = bool(arr["p"][k, PLANES[plane]] == 0.0)
+                headings[k] = 0.0
+        arr = dict(arr, q=q, R=R)
+        sub += " + null quaternions"
     stamped = bool(rng.random() < .6)
     run_project(run, case, arr, plane, mode, stamped, planar, headings, bool(rng.random() < .4),
                 [sub + ":" + plane, "storage:" + mode],
